@@ -254,6 +254,8 @@ where
 		&self,
 		keychain_mask: Option<&SecretKey>,
 	) -> Result<Vec<AcctPathMapping>, Error> {
+		#[cfg(feature = "verif_hooks")]
+		let _verif_scope = grin_wallet_libwallet::verif::lock_scope();
 		let mut w_lock = self.wallet_inst.lock();
 		let w = w_lock.lc_provider()?.wallet_inst()?;
 		// Test keychain mask, to keep API consistent
@@ -306,6 +308,8 @@ where
 		keychain_mask: Option<&SecretKey>,
 		label: &str,
 	) -> Result<Identifier, Error> {
+		#[cfg(feature = "verif_hooks")]
+		let _verif_scope = grin_wallet_libwallet::verif::lock_scope();
 		let mut w_lock = self.wallet_inst.lock();
 		let w = w_lock.lc_provider()?.wallet_inst()?;
 		owner::create_account_path(&mut **w, keychain_mask, label)
@@ -354,6 +358,8 @@ where
 		keychain_mask: Option<&SecretKey>,
 		label: &str,
 	) -> Result<(), Error> {
+		#[cfg(feature = "verif_hooks")]
+		let _verif_scope = grin_wallet_libwallet::verif::lock_scope();
 		let mut w_lock = self.wallet_inst.lock();
 		let w = w_lock.lc_provider()?.wallet_inst()?;
 		// Test keychain mask, to keep API consistent
@@ -663,6 +669,8 @@ where
 	) -> Result<Slate, Error> {
 		let send_args = args.send_args.clone();
 		let slate = {
+			#[cfg(feature = "verif_hooks")]
+			let _verif_scope = grin_wallet_libwallet::verif::lock_scope();
 			let mut w_lock = self.wallet_inst.lock();
 			let w = w_lock.lc_provider()?.wallet_inst()?;
 			owner::init_send_tx(&mut **w, keychain_mask, args, self.doctest_mode)?
@@ -762,6 +770,8 @@ where
 		keychain_mask: Option<&SecretKey>,
 		args: IssueInvoiceTxArgs,
 	) -> Result<Slate, Error> {
+		#[cfg(feature = "verif_hooks")]
+		let _verif_scope = grin_wallet_libwallet::verif::lock_scope();
 		let mut w_lock = self.wallet_inst.lock();
 		let w = w_lock.lc_provider()?.wallet_inst()?;
 		owner::issue_invoice_tx(&mut **w, keychain_mask, args, self.doctest_mode)
@@ -834,6 +844,8 @@ where
 		slate: &Slate,
 		args: InitTxArgs,
 	) -> Result<Slate, Error> {
+		#[cfg(feature = "verif_hooks")]
+		let _verif_scope = grin_wallet_libwallet::verif::lock_scope();
 		let mut w_lock = self.wallet_inst.lock();
 		let w = w_lock.lc_provider()?.wallet_inst()?;
 		let send_args = args.send_args.clone();
@@ -927,6 +939,8 @@ where
 		keychain_mask: Option<&SecretKey>,
 		slate: &Slate,
 	) -> Result<(), Error> {
+		#[cfg(feature = "verif_hooks")]
+		let _verif_scope = grin_wallet_libwallet::verif::lock_scope();
 		let mut w_lock = self.wallet_inst.lock();
 		let w = w_lock.lc_provider()?.wallet_inst()?;
 		owner::tx_lock_outputs(&mut **w, keychain_mask, slate)
@@ -993,6 +1007,8 @@ where
 		keychain_mask: Option<&SecretKey>,
 		slate: &Slate,
 	) -> Result<Slate, Error> {
+		#[cfg(feature = "verif_hooks")]
+		let _verif_scope = grin_wallet_libwallet::verif::lock_scope();
 		let mut w_lock = self.wallet_inst.lock();
 		let w = w_lock.lc_provider()?.wallet_inst()?;
 		owner::finalize_tx(&mut **w, keychain_mask, slate)
@@ -1055,6 +1071,8 @@ where
 		fluff: bool,
 	) -> Result<(), Error> {
 		let client = {
+			#[cfg(feature = "verif_hooks")]
+			let _verif_scope = grin_wallet_libwallet::verif::lock_scope();
 			let mut w_lock = self.wallet_inst.lock();
 			let w = w_lock.lc_provider()?.wallet_inst()?;
 			// Test keychain mask, to keep API consistent
@@ -1182,6 +1200,8 @@ where
 		tx_id: Option<u32>,
 		slate_id: Option<&Uuid>,
 	) -> Result<Option<Slate>, Error> {
+		#[cfg(feature = "verif_hooks")]
+		let _verif_scope = grin_wallet_libwallet::verif::lock_scope();
 		let mut w_lock = self.wallet_inst.lock();
 		let w = w_lock.lc_provider()?.wallet_inst()?;
 		// Test keychain mask, to keep API consistent
@@ -1385,6 +1405,8 @@ where
 		keychain_mask: Option<&SecretKey>,
 	) -> Result<NodeHeightResult, Error> {
 		{
+			#[cfg(feature = "verif_hooks")]
+			let _verif_scope = grin_wallet_libwallet::verif::lock_scope();
 			let mut w_lock = self.wallet_inst.lock();
 			let w = w_lock.lc_provider()?.wallet_inst()?;
 			// Test keychain mask, to keep API consistent
@@ -1435,6 +1457,8 @@ where
 	/// ```
 
 	pub fn get_top_level_directory(&self) -> Result<String, Error> {
+		#[cfg(feature = "verif_hooks")]
+		let _verif_scope = grin_wallet_libwallet::verif::lock_scope();
 		let mut w_lock = self.wallet_inst.lock();
 		let lc = w_lock.lc_provider()?;
 		if self.doctest_mode && !self.doctest_retain_tld {
@@ -1482,6 +1506,8 @@ where
 	/// ```
 
 	pub fn set_top_level_directory(&self, dir: &str) -> Result<(), Error> {
+		#[cfg(feature = "verif_hooks")]
+		let _verif_scope = grin_wallet_libwallet::verif::lock_scope();
 		let mut w_lock = self.wallet_inst.lock();
 		let lc = w_lock.lc_provider()?;
 		lc.set_top_level_directory(dir)
@@ -1540,6 +1566,8 @@ where
 		logging_config: Option<LoggingConfig>,
 		tor_config: Option<TorConfig>,
 	) -> Result<(), Error> {
+		#[cfg(feature = "verif_hooks")]
+		let _verif_scope = grin_wallet_libwallet::verif::lock_scope();
 		let mut w_lock = self.wallet_inst.lock();
 		let lc = w_lock.lc_provider()?;
 		lc.create_config(
@@ -1614,6 +1642,8 @@ where
 		mnemonic_length: u32,
 		password: ZeroingString,
 	) -> Result<(), Error> {
+		#[cfg(feature = "verif_hooks")]
+		let _verif_scope = grin_wallet_libwallet::verif::lock_scope();
 		let mut w_lock = self.wallet_inst.lock();
 		let lc = w_lock.lc_provider()?;
 		lc.create_wallet(
@@ -1693,6 +1723,8 @@ where
 					.unwrap(),
 			)?));
 		}
+		#[cfg(feature = "verif_hooks")]
+		let _verif_scope = grin_wallet_libwallet::verif::lock_scope();
 		let mut w_lock = self.wallet_inst.lock();
 		let lc = w_lock.lc_provider()?;
 		lc.open_wallet(name, password, use_mask, self.doctest_mode)
@@ -1726,6 +1758,8 @@ where
 	/// ```
 
 	pub fn close_wallet(&self, name: Option<&str>) -> Result<(), Error> {
+		#[cfg(feature = "verif_hooks")]
+		let _verif_scope = grin_wallet_libwallet::verif::lock_scope();
 		let mut w_lock = self.wallet_inst.lock();
 		let lc = w_lock.lc_provider()?;
 		lc.close_wallet(name)
@@ -1766,6 +1800,8 @@ where
 		name: Option<&str>,
 		password: ZeroingString,
 	) -> Result<ZeroingString, Error> {
+		#[cfg(feature = "verif_hooks")]
+		let _verif_scope = grin_wallet_libwallet::verif::lock_scope();
 		let mut w_lock = self.wallet_inst.lock();
 		let lc = w_lock.lc_provider()?;
 		lc.get_mnemonic(name, password)
@@ -1813,6 +1849,8 @@ where
 		old: ZeroingString,
 		new: ZeroingString,
 	) -> Result<(), Error> {
+		#[cfg(feature = "verif_hooks")]
+		let _verif_scope = grin_wallet_libwallet::verif::lock_scope();
 		let mut w_lock = self.wallet_inst.lock();
 		let lc = w_lock.lc_provider()?;
 		lc.change_password(name, old, new)
@@ -1850,6 +1888,8 @@ where
 	/// ```
 
 	pub fn delete_wallet(&self, name: Option<&str>) -> Result<(), Error> {
+		#[cfg(feature = "verif_hooks")]
+		let _verif_scope = grin_wallet_libwallet::verif::lock_scope();
 		let mut w_lock = self.wallet_inst.lock();
 		let lc = w_lock.lc_provider()?;
 		lc.delete_wallet(name)
@@ -2420,6 +2460,8 @@ where
 		features: OutputFeatures,
 		amount: u64,
 	) -> Result<BuiltOutput, Error> {
+		#[cfg(feature = "verif_hooks")]
+		let _verif_scope = grin_wallet_libwallet::verif::lock_scope();
 		let mut w_lock = self.wallet_inst.lock();
 		let w = w_lock.lc_provider()?.wallet_inst()?;
 		owner::build_output(&mut **w, keychain_mask, features, amount)
@@ -2478,6 +2520,8 @@ where
 		commitment: &Commitment,
 		lock_output: bool, // use_test_rng: bool,
 	) -> Result<SwapReq, Error> {
+		#[cfg(feature = "verif_hooks")]
+		let _verif_scope = grin_wallet_libwallet::verif::lock_scope();
 		let mut w_lock = self.wallet_inst.lock();
 		let w = w_lock.lc_provider()?.wallet_inst()?;
 		owner::create_mwixnet_req(
